@@ -39,6 +39,9 @@ let handle op args =
       let s = zs_of_hex s in
       [tok_of_outcome (StrsGo.go_GoCamelCase s); tok_of_outcome (StrsGo.go_JSONCamelCase s);
        tok_of_outcome (StrsGo.go_JSONSnakeCase s)]
+  | "go_trim", [s; p] -> [tok_of_outcome (StrsGo.go_TrimEnumPrefix (zs_of_hex s) (zs_of_hex p))]
+  | "trim", [s; p] -> [hex_of_bytes (StrsTrimModel.trim_enum_prefix (bytes_of_hex s) (bytes_of_hex p))]
+  | "go_lower", [c] -> [hex_of_z (StrsGoBase.unicode_ToLower (z_of_hex c))]
   | "go_cls", [c] ->
       let c = z_of_hex c in
       [tok_of_bool (StrsGo.go_isASCIILower c); tok_of_bool (StrsGo.go_isASCIIUpper c); tok_of_bool (StrsGo.go_isASCIIDigit c)]
